@@ -375,6 +375,38 @@ func ruleC02_4(c *Ctx, r *Rep) {
 			{"OrderingKey", []string{"field:OrderKey"}, contentForbid("field:OrderKey")},
 			{"PublishTime", []string{"field:PublishedAt"}, contentForbid()},
 		})
+		plainCopy(c, r, "entDeliveryToGrpc", pm, map[string]string{"Data": "Payload", "Attributes": "Attributes"})
+	}
+	if fn := r.Anchor("C02.4", fnPullApply); fn != nil {
+		plainCopy(c, r, "applyResults", fieldStores(fn, modPath+"/actions", "SubscriptionMessageDelivery"), map[string]string{"Payload": "Payload", "Attributes": "Attributes"})
+	}
+}
+
+// plainCopy: on the way out, payload and attributes are handed on as they are: every value a content field can get is
+// the source field itself (possibly converted) — no alternative constant, no value computed from the content (a
+// "null means empty" special case delivers a different document than the one published).
+func plainCopy(c *Ctx, r *Rep, where string, stores map[string][]*ssa.Store, fields map[string]string) {
+	var names []string
+	for k := range fields {
+		names = append(names, k)
+	}
+	sort.Strings(names)
+	for _, dst := range names {
+		for i, st := range stores[dst] {
+			ok := true
+			for _, alt := range valueAlternatives(st.Val) {
+				u, isU := resolve(alt.v).(*ssa.UnOp)
+				if !isU || u.Op != token.MUL {
+					ok = false
+					continue
+				}
+				fa, isFA := u.X.(*ssa.FieldAddr)
+				if !isFA || fieldName(fa.X.Type(), fa.Field) != fields[dst] {
+					ok = false
+				}
+			}
+			r.Check("C02.4", fmt.Sprintf("C02.4:unchanged:%s#%d@%s", dst, i+1, where), st.Pos(), ok, "", dst+" handed to the client is not the stored "+fields[dst]+" itself on every path (a constant, nil or a value computed from the content can take its place): the subscriber receives a different payload than was published")
+		}
 	}
 }
 
